@@ -365,7 +365,7 @@ pub fn run(ctx: &Ctx) {
         run_batch(&mut sess, jobs);
     }
     sess.finish(
-        "K: Lean glue models vs the real glue — byte_spans_to_char_spans + Mask::push_allowed + merge_whitespace_sep through TreeSitterMasker::create_mask (real tree-sitter node byte ranges passed as data), parsers::Mask through a public Masker with recorded inner-parser tokens, Unit/JsDoc line splitting and leader stripping and the JSDoc inline-tag marker through the real comment parsers with a recording inner parser, the Literate Haskell masker through LiterateHaskellParser, the git-commit cut, OffsetCursor::push_to, the Markdown traversed_bytes/chars advance against pulldown-cmark's real event ranges; corpus, exhaustive small scope (all line lists / texts over small alphabets), structured random with multi-byte text. O: for EVERY language id of the server's table, files assembled from code | comment | markup segments with recorded ground truth (prose = plain dictionary words; multi-byte, astral and combining characters in string literals, code, tags, math, inline code; random indentation; line/block/doc/nested comments; LF and CRLF): every prose word is exactly one Word token at its true character offset; no token other than Unlintable/Url/whitespace/breaks overlaps a non-prose segment; no Word overlaps a delimiter; comments with an ignore marker, shebang lines and the `#` part of a commit message contribute no tokens. Non-trivial = a generated file with ≥3 distinct constructs and non-ASCII content; distinct by text.",
+        "K: Lean glue models vs the real glue — byte_spans_to_char_spans + Mask::push_allowed + merge_whitespace_sep through TreeSitterMasker::create_mask (real tree-sitter node byte ranges passed as data), CommentMasker::create_mask (masker.rs compiled in with #[path]: tree-sitter mask, then the ignore-marker filter with the default ignore_condition, then Mask::from_iter; op `cmask`: every marker spelling and near-misses, `#!` spans, merged neighbours; on the REAL masks the oracle checks kept = spans of the tree-sitter mask without a marker / leading `#!`, in order), parsers::Mask through a public Masker with recorded inner-parser tokens, Unit/JsDoc line splitting and leader stripping and the JSDoc inline-tag marker through the real comment parsers with a recording inner parser, with the span-only faithfulness predicate of jsdocParse_span_faithful / javadocParse_span_faithful evaluated on the REAL JsDoc / JavaDoc output of every such case (same spans in the same order as the recorded inner tokens shifted to the stripped line / comment body, kinds kept or Unlintable, line breaks at Σ(len+1)+len, only `*`/space leaders lost; in bounds and ordered when the inner tokens are), the Literate Haskell masker through LiterateHaskellParser, the git-commit cut, OffsetCursor::push_to, the Markdown traversed_bytes/chars advance against pulldown-cmark's real event ranges; corpus, exhaustive small scope (all line lists / texts over small alphabets), structured random with multi-byte text. O: for EVERY language id of the server's table, files assembled from code | comment | markup segments with recorded ground truth (prose = plain dictionary words; multi-byte, astral and combining characters in string literals, code, tags, math, inline code; random indentation; line/block/doc/nested comments; LF and CRLF): every prose word is exactly one Word token at its true character offset; no token other than Unlintable/Url/whitespace/breaks overlaps a non-prose segment; no Word overlaps a delimiter; comments with an ignore marker, shebang lines and the `#` part of a commit message contribute no tokens. Non-trivial = a generated file with ≥3 distinct constructs and non-ASCII content; distinct by text.",
         true,
         json!({"language_ids": ids, "ignore_markers": markers, "files_per_language": per_front}),
     );
